@@ -859,9 +859,9 @@ def check_call(ctx, case, P, f, flags, opts, res, site, hist=True):
     return ref
 
 
-def stream_pipeline(ctx, reqs, pending):
+def stream_pipeline(ctx, reqs, pending, only_idx=None):
     n_img = ctx.n(800, 20000)
-    for idx in range(n_img):
+    for idx in (range(n_img) if only_idx is None else [only_idx]):
         r = ctx.rng('pipe', idx)
         P, _ = gen_pipeline_case(r, idx)
         via_file = r.choice([False] * 16 + [True, True, 'lazy', 'lazy'])
@@ -985,30 +985,72 @@ def run(ctx):
 
 
 def replay(ctx, case):
+    """Re-run one stored case on the implementation (model off); returns the failures of exactly that case or None."""
     sub = type(ctx)(ctx.prop, ctx.tier, ctx.seed, 1, ctx.driver)
-    if case.get('stream') == 'flags':
+    sub.model_available = False
+    stream = case.get('stream')
+    if stream == 'flags':
         P = flag_image(case['ctype'], case['present'])
         im, _ = build(P)
         res = call(im.get_frame, 1, **flag_kwargs(case['flags']))
         check_call(sub, case, P, 0, case['flags'], {}, res, 'flags', hist=False)
-    if case.get('stream') == 'pipe':
+        return sub.failures[:3] or None
+    if stream == 'pipe' and 'P' in case:
+        # the case carries the whole image and call: re-run it directly
         P, flags, opts = case['P'], case['flags'], case['opts']
         im, _ = build(P)
         kw = dict(flag_kwargs(flags), **opt_kwargs(opts))
-        fr = range(len(P['frames'])) if case['frame'] == 'all' else [case['frame']]
-        for f in fr:
-            res = call(im.get_frame, f + 1, **kw)
-            check_call(sub, case, P, f, flags, opts, res, 'get_frame', hist=False)
+        n = len(P['frames'])
+        if case.get('frame') == 'all':
+            sel = case.get('selection') or list(range(n))
+            how = case.get('how', 'all')
+            singles = [call(im.get_frame, f + 1, **kw) for f in sel]
+            for f, sres in zip(sel, singles):
+                check_call(sub, case, P, f, flags, opts, sres, 'get_frame', hist=False)
+            if how == 'all':
+                res = call(im.get_frames, **kw)
+            elif how == 'numbers':
+                res = call(im.get_frames, [f + 1 for f in sel], **kw)
+            else:
+                res = call(im.get_frames, sel, as_indices=True, **kw)
+            if all(x[0] == 'ok' for x in singles):
+                if res[0] != 'ok':
+                    sub.fail(case, {'why': 'get_frames refused where every get_frame succeeds', 'error': res[2]}, site='get_frames')
+                elif not np.array_equal(np.asarray(res[1]), np.stack([x[1] for x in singles]), equal_nan=True):
+                    sub.fail(case, {'why': 'get_frames differs from stacked get_frame', 'got': np.asarray(res[1]).tolist()}, site='get_frames')
+            elif res[0] == 'ok':
+                sub.fail(case, {'why': 'get_frames succeeded although a single get_frame is refused'}, site='get_frames')
+        else:
+            f = case['frame']
+            check_call(sub, case, P, f, flags, opts, call(im.get_frame, f + 1, **kw), 'get_frame', hist=False)
+        if sub.failures or case.get('shrunk') or case.get('idx', -1) < 0:
+            return sub.failures[:3] or None
+        # failures that depend on the sequence of reads (repeat / snapshot): re-run the whole image of the stream
+        stream_pipeline(sub, [], [], only_idx=case['idx'])
+        keys = [k for k in ('rep', 'frame', 'repeated') if k in case]
+        sub.failures = [f_ for f_ in sub.failures if all(f_['case'].get(k) == case.get(k) for k in keys)]
+        return sub.failures[:3] or None
     streams = {'lut': stream_lut, 'palette': stream_palette, 'selwin': stream_selectors, 'sellut': stream_selectors,
-               'selrw': stream_selectors, 'place': stream_placement, 'obj': stream_objects, 'paths': stream_paths, 'dtype': stream_dtype, 'spell': stream_spellings, 'entry': stream_entrypoints}
-    fn = streams.get(case.get('stream'))
+               'selrw': stream_selectors, 'place': stream_placement, 'obj': stream_objects, 'paths': stream_paths, 'dtype': stream_dtype,
+               'spell': stream_spellings, 'entry': stream_entrypoints}
+    fn = streams.get(stream)
     if fn is not None:
-        # these streams are cheap: re-run the stream and keep the failures of the same case
+        # deterministic and cheap: re-run the stream and keep the failures of the same case
         fn(sub, [], [])
         keys = [k for k in ('stream', 'idx', 'n', 'sel', 'kind', 'places', 'frame', 'slope', 'intercept', 'out', 'in', 'dtype', 'dtype_spelling',
-                            'range_spelling', 'frame_number', 'round', 'family', 'source', 'selector', 'entry', 'voi', 'rw', 'slice') if k in case]
-        sub.failures = [f for f in sub.failures if all(f['case'].get(k) == case.get(k) for k in keys)]
+                            'range_spelling', 'frame_number', 'round', 'family', 'source', 'selector', 'entry', 'voi', 'rw', 'slice', 'cls',
+                            'array_dtype', 'expl') if k in case]
+        sub.failures = [f_ for f_ in sub.failures if all(_jsonish(f_['case'].get(k)) == _jsonish(case.get(k)) for k in keys)]
     return sub.failures[:3] or None
+
+
+def _jsonish(x):
+    """a value as it looks after a JSON round trip (tuples become lists, numpy scalars plain numbers)"""
+    import json
+    try:
+        return json.loads(json.dumps(x, default=lambda o: o.item() if hasattr(o, 'item') else repr(o)))
+    except Exception:  # noqa: BLE001
+        return repr(x)
 
 
 # ---------------------------------------------------------------------------- flag table
@@ -1953,7 +1995,7 @@ def shrink(ctx, failure):
 
     def fails(Q):
         sub = type(ctx)(ctx.prop, ctx.tier, ctx.seed, 1, ctx.driver)
-        c = dict(case, P=Q, frame=0)
+        c = dict(case, P=Q, frame=0, shrunk=True)
         try:
             im, _ = build(Q)
             kw = dict(flag_kwargs(case['flags']), **opt_kwargs(case['opts']))
